@@ -143,26 +143,20 @@ func metadataDeps(c *Ctx, pk *Packager) (map[string]bool, map[string]bool, strin
 				out["Release"] = true
 			}
 		}
-		for _, fn := range sortedFuncs(c, c.Reach(pk.Package)) {
-			forEachInstr(fn, func(in ssa.Instruction) {
-				mu, ok := in.(*ssa.MapUpdate)
-				if !ok {
-					return
+		for _, kv := range archKeyValues(c, pa, pk) {
+			switch kv.key {
+			case "pkgname":
+				if pa.Of(kv.val).has("Info.Name") {
+					out["Name"] = true
 				}
-				switch constOrEmpty(mu.Key) {
-				case "pkgname":
-					if pa.Of(mu.Value).has("Info.Name") {
-						out["Name"] = true
-					}
-				case "arch":
-					for _, a := range infoAtoms(pa.Of(mu.Value)) {
-						archFields[strings.TrimPrefix(a, "Info.")] = true
-					}
-					if pa.Of(mu.Value).has("Info.Arch") {
-						out["Arch"] = true
-					}
+			case "arch":
+				for _, a := range infoAtoms(pa.Of(kv.val)) {
+					archFields[strings.TrimPrefix(a, "Info.")] = true
 				}
-			})
+				if pa.Of(kv.val).has("Info.Arch") {
+					out["Arch"] = true
+				}
+			}
 		}
 		return out, archFields, ".PKGINFO"
 	}
@@ -224,7 +218,7 @@ func slotMustDepend(c *Ctx, s versionSlot, comp string) bool {
 }
 
 func checkC15(c *Ctx, r *Report) {
-	r.Rules = []string{"F14 file name and metadata state the same identity components", "F14 architecture after the same translation, stated plainly", "file name ends in the conventional extension", "W3 file-name side effects are idempotent", "CLI target resolution", "CLI packager inference", "F14-same-expr the same expression on both sides (rpm, apk, archlinux release)", "CLI working directory unchanged while the target is resolved", "same-F13-plain the control template's Version line applies no helper the file name does not (imported from C14)", "F14-name-fixpoint a sanitiser applied to the name in the file name is what Package validates the name with", "same-D8-packager-store (imported from C14)", "CLI-name-info the command names the file after the settings it packages"}
+	r.Rules = []string{"F14 file name and metadata state the same identity components", "F14 architecture after the same translation, stated plainly", "file name ends in the conventional extension", "W3 file-name side effects are idempotent", "CLI target resolution", "CLI packager inference", "F14-same-expr the same expression on both sides (rpm, apk, archlinux release)", "CLI working directory unchanged while the target is resolved", "same-F13-plain the control template's Version line applies no helper the file name does not (imported from C14)", "F14-name-fixpoint a sanitiser applied to the name in the file name is what Package validates the name with", "same-D8-packager-store (imported from C14)", "CLI-name-info the command names the file after the settings it packages", "F14-row-plain name and architecture rows of a control template apply no template function", "F14-no-defaults no packager applies nfpm.WithDefaults"}
 	r.Explanation = "Agreement and structure rules over go/ssa and the parsed templates. (F14) per packager and per identity component (name, version, prerelease, version metadata, release, architecture) the conventional file name depends on the component on every live path (abstract evaluation with the component fixed non-empty, intersection of provenance at joins) exactly when the inner metadata states it (control template rows / rpm metadata fields / .PKGINFO keys, the same way); both ConventionalFileName and Package apply the same architecture translation before anything reads the architecture, and the metadata's architecture derives from the translated architecture alone; the file name's format ends in the packager's ConventionalExtension constant; the writes ConventionalFileName performs on the Info are idempotent (C11-W3). (CLI) in doPackage the path handed to os.Create is the phi of the given target, the conventional name (on the target-empty edge) and path.Join(target, conventional name) (on the is-a-directory edge); Info.Target receives the same value; the packager is taken from the target's extension only on the packager-empty edge."
 	r.Explanation += " (F14-same-expr) rpm: name, version, release and architecture in the file name are the expressions written to the metadata; apk: the template's pkgver function; archlinux: the release expression. The command changes the working directory nowhere on its packaging path."
 	r.Explanation += " (same-F13-plain) imported from C14: a helper applied to a version component on the template's Version line only makes file name and metadata disagree."
@@ -253,6 +247,58 @@ func checkC15(c *Ctx, r *Report) {
 		sort.Strings(af)
 		r.Check(strings.Join(af, ",") == "Arch", "F14-arch", pk.Format+": metadata architecture derives from the translated architecture alone", c.pos(pk.Package.Pos()),
 			fmt.Sprintf("the metadata's architecture is built from {%s}; the file name uses the translated architecture only", strings.Join(af, ",")))
+		// the defaults (semver split, platform, float-suffix stripping) are the
+		// caller's business: applied in Package or in the file-name function
+		// alone, they make the two disagree for every Info the caller did not
+		// run through them itself
+		if wdf := c.Func("", "WithDefaults"); wdf != nil {
+			var site ssa.Instruction
+			nFns := 0
+			for _, fn := range sortedFuncs(c, c.Reach(pk.Package, pk.FileName)) {
+				if c.funcPkgPath(fn) != pk.PkgPath {
+					continue
+				}
+				nFns++
+				forEachInstr(fn, func(in ssa.Instruction) {
+					if call, ok := in.(ssa.CallInstruction); ok && call.Common().StaticCallee() == wdf {
+						site = in
+					}
+				})
+			}
+			pos := c.pos(pk.Package.Pos())
+			if site != nil {
+				pos = c.instrPos(site)
+			}
+			r.Check(site == nil && nFns > 0, "F14-no-defaults", pk.Format+": the packager applies nfpm.WithDefaults nowhere", pos,
+				fmt.Sprintf("%d packager functions examined; a call of WithDefaults inside the packager re-splits the version (and rewrites platform and architecture) on one of the two paths only: file name and metadata disagree for an Info that was not defaulted by the caller", nFns))
+		}
+		// name and architecture rows of a control template print the field as
+		// it is: a template function rewrites what the file name states plainly
+		if pk.Format == "deb" || pk.Format == "ipk" || pk.Format == "apk" {
+			nRows := 0
+			for _, ti := range templateConstants(c, c.Reach(pk.Package)) {
+				for _, row := range ti.Rows {
+					switch row.Label {
+					case "Package", "pkgname", "Architecture", "arch":
+					default:
+						continue
+					}
+					plainField := false
+					for _, f := range canonFields(c, row.Printed) {
+						if f == "Info.Name" || f == "Info.Arch" {
+							plainField = true
+						}
+					}
+					if !plainField {
+						continue
+					}
+					nRows++
+					r.Check(len(row.Funcs) == 0, "F14-row-plain", fmt.Sprintf("%s: control row %q prints the field as the file name states it", pk.Format, row.Label), c.pos(ti.Fn.Pos()),
+						fmt.Sprintf("the row applies %v to the field; the conventional file name states the field itself, so the two disagree for every value the function changes", row.Funcs))
+				}
+			}
+			r.Floor("F14-row-plain/"+pk.Format, nRows, 1)
+		}
 		// same translation in both entry points
 		tables := archTables(c)
 		_, tfn := archTableOf(c, pk, tables)
@@ -262,8 +308,38 @@ func checkC15(c *Ctx, r *Report) {
 			for _, entry := range []*ssa.Function{pk.FileName, pk.Package} {
 				okT := false
 				var first ssa.Instruction
+				// a helper that translates on every path before it reads the
+				// architecture counts as the translation
+				translatesFirst := func(h *ssa.Function) bool {
+					if h == nil || !c.isModuleFunc(h) || len(h.Blocks) == 0 {
+						return false
+					}
+					var tc ssa.Instruction
+					forEachInstr(h, func(in ssa.Instruction) {
+						if call, ok := in.(*ssa.Call); ok && call.Call.StaticCallee() == tfn && tc == nil {
+							tc = call
+						}
+					})
+					if tc == nil {
+						return false
+					}
+					okH := true
+					forEachInstr(h, func(in ssa.Instruction) {
+						switch x := in.(type) {
+						case *ssa.Return:
+							if !instrDominates(tc, x) {
+								okH = false
+							}
+						case *ssa.UnOp:
+							if p, root := addrPath(x.X); x.Op == token.MUL && root != nil && p == "Arch" && rootTypeName(root.Type()) == "Info" && !instrDominates(tc, x) {
+								okH = false
+							}
+						}
+					})
+					return okH
+				}
 				forEachInstr(entry, func(in ssa.Instruction) {
-					if call, ok := in.(*ssa.Call); ok && call.Call.StaticCallee() == tfn && first == nil {
+					if call, ok := in.(*ssa.Call); ok && first == nil && (call.Call.StaticCallee() == tfn || translatesFirst(call.Call.StaticCallee())) {
 						first = call
 					}
 				})
@@ -309,7 +385,7 @@ func checkC15(c *Ctx, r *Report) {
 	// the file name takes the version components as configured; so must the
 	// control template (a helper applied on the Version line only - a
 	// sanitiser, say - makes the two disagree; shared with C14)
-	r.Floor("same-F13-plain", importRules(c, r, checkC14, "same-", []string{"F13-plain", "D8-packager-store"}, nil), 7)
+	r.Floor("same-F13-plain", importRules(c, r, checkC14, "same-", []string{"F13-plain", "D8-packager-store", "lossless-F6-parsed"}, nil), 10)
 	// W3 (shared with C11)
 	tmp := newReport("tmp")
 	checkPackagerStores(c, tmp)
